@@ -75,6 +75,26 @@ func init() {
 				docs, qs := acDocsQueries(r, i%3 == 0)
 				add(triIn{Tri: true, NF: 2, Ac: true, Docs: docs, Qs: qs})
 			}
+			{ // keywords that span, contain or border the join of a list assignment
+				kw := func(inc bool, ss ...string) eExpr {
+					l := make([]TV, len(ss))
+					for i, s := range ss {
+						l[i] = tvStr(s)
+					}
+					return eExpr{F: 1, Inc: inc, V: tvSlice("[]string", l...)}
+				}
+				docs := []eDoc{{ID: 1, Cons: []eConj{{kw(true, "abc")}}}, {ID: 2, Cons: []eConj{{kw(true, "b c")}}}, {ID: 3, Cons: []eConj{{kw(false, "ab")}}},
+					{ID: 4, Cons: []eConj{{kw(true, "c"), kw(false, "a b")}}}, {ID: 5, Cons: []eConj{{kw(true, " ")}}}, {ID: 6, Cons: []eConj{{kw(true, "日本")}}}}
+				var qs []eQuery
+				for _, parts := range [][]string{{"ab", "c"}, {"a", "b"}, {"a", "b", "c"}, {"abc"}, {"ab c"}, {"xa", "bcy"}, {"日", "本"}, {"日本", "c"}, {"c"}, {"", "c"}} {
+					l := make([]TV, len(parts))
+					for i, s := range parts {
+						l[i] = tvStr(s)
+					}
+					qs = append(qs, eQuery{A: []eAssign{{F: 1, V: tvSlice("[]string", l...)}}}, eQuery{A: []eAssign{{F: 1, V: tvList(l...)}, {F: 0, V: tvInt("int", 1)}}})
+				}
+				add(triIn{Tri: true, NF: 2, Ac: true, Docs: docs, Qs: qs})
+			}
 			for i := 0; i < n; i++ {
 				p := []string{"", "number", "strhash"}[i%3]
 				nf := 1 + r.Intn(4)
